@@ -246,7 +246,7 @@ func runLiveSoak(cs CaseSpec) *CaseResult {
 			time.Sleep(2 * time.Second)
 			diag, allIdle = liveDiag(ln)
 		}
-		if allIdle && prop == "C05" {
+		if allIdle && (prop == "C05" || prop == "C06") {
 			missing := ""
 			for i, l := range ln.Nodes {
 				have := map[string]bool{}
@@ -265,6 +265,10 @@ func runLiveSoak(cs CaseSpec) *CaseResult {
 				if missing != "" {
 					break
 				}
+			}
+			if missing != "" && prop == "C06" {
+				res.violate("C06", "C06:transaction-not-committed", "live network: "+missing+" (fair gossip among all validators, nobody busy any more)", map[string]interface{}{"engine": "live soak", "nodes": diag})
+				return res
 			}
 			if missing != "" {
 				res.violate("C05", "C05:accepted-transaction-dropped", missing, map[string]interface{}{"engine": "live soak", "nodes": diag})
